@@ -216,6 +216,14 @@ func c17Run(c *Ctx) {
 		ParserOpts: []flags.Options{flags.HelpFlag, 0, flags.HelpFlag | flags.PassDoubleDash}, NoHelpNames: true,
 		PosTypes: []TypeSpec{{K: KString}},
 	}
+	shortOnly := c.K%9 == 4
+	if shortOnly {
+		// every option has only a short name, no value name, no choices, no positionals and no built-in help flag:
+		// the long-name column is empty (the layout rules hold all the same, also below a sub-command)
+		cfg.PShortOnly, cfg.PLongOnly, cfg.PValueName, cfg.PChoices, cfg.PPos, cfg.PNamespace = 100, 0, 0, 0, 0, 0
+		cfg.ParserOpts = []flags.Options{0, flags.PassDoubleDash}
+		cfg.PCmds = 90
+	}
 	d := GenDecl(c.Sub("d"), cfg)
 	// names, value names, choices, descriptions in the chosen scripts
 	maxw := r.Range(8, 70)
